@@ -238,7 +238,7 @@ func TestFiles(t *testing.T) {
 			c.Tags = append(c.Tags, tg)
 		}
 		c.SegKind = rapid.IntRange(0, xport.SegKinds-1).Draw(t, "segk")
-		if c.SegKind == 2 || c.SegKind == 3 {
+		if c.SegKind == 2 || c.SegKind == 3 || c.SegKind == 5 {
 			c.Seg = rapid.SliceOfN(rapid.IntRange(1, 40), 1, 8).Draw(t, "seg")
 		}
 		if n > 0 && rapid.IntRange(0, 4).Draw(t, "refusek") == 0 {
@@ -289,7 +289,7 @@ func TestBigBodies(t *testing.T) {
 // TestSizeSweep: every body size from 2^k-20 to 2^k+4 for k = 8..16 (a buffer of a round size minus
 // the 11-byte header and the 4-byte trailer ends somewhere in that window), followed by a small tag.
 func TestSizeSweep(t *testing.T) {
-	rec := ev.New(prop, "size-sweep", "deterministic: body sizes 2^k-20 .. 2^k+4 for k = 8..16 (225 sizes), each followed by a small tag, read whole and in drawn pieces; plus tags whose 11-byte header spells the file signature "+
+	rec := ev.New(prop, "size-sweep", "deterministic: every body size 0..4200, and 2^k-20 .. 2^k+4 for k = 8..16, each followed by a small tag, read whole and in drawn pieces; plus tags whose 11-byte header spells the file signature "+
 		"('F' 'L' 'V' ...: type 0x46, size 0x4C56xx); all non-trivial")
 	rec.Exhaustive()
 	i := 0
@@ -304,6 +304,10 @@ func TestSizeSweep(t *testing.T) {
 			p := ev.Fail(prop, "files", c, err)
 			t.Fatalf("%v (replay %s)", err, p)
 		}
+	}
+	// every body size up to 4200 (any internal buffer of a "natural" size - an MTU, a page, a cache line multiple - ends in there)
+	for n := 0; n <= 4200; n++ {
+		run(Case{HasVideo: n%2 == 0, HasAudio: true, Tags: []T{{Type: 9, Ts: uint32(n), Len: n, Fill: uint64(n) + 1}, {Type: 8, Ts: 5, Len: 3, Fill: 9}}, SegKind: n % xport.SegKinds, Seg: []int{700, 7, 64}})
 	}
 	for k := 8; k <= 16; k++ {
 		for d := -20; d <= 4; d++ {
